@@ -3,7 +3,7 @@
 import numpy as np
 import pandas as pd
 
-from bycycle.utils.checks import check_param_range, check_param_options
+from bycycle.utils.checks import check_param_range, check_param_options, check_sig_dtype
 from bycycle.burst import detect_bursts_dual_threshold
 
 ###################################################################################################
@@ -290,6 +290,7 @@ def compute_monotonicity(df_samples, sig):
     """
 
     # Compute monotonicity
+    sig = check_sig_dtype(sig)
     cycles = len(df_samples)
     monotonicity = np.zeros(cycles)
 
